@@ -286,7 +286,9 @@ pub fn seq_worker(a: &WorkerArgs) -> WorkerResult {
     let strategy = if is_pair { c15_strategy(&profile) } else { gen::case_strategy(&profile) };
     let mut runner = TestRunner::new_with_rng(config(a.cases), rng_for(a.seed, &a.prop, a.idx));
     let exclude_u4 = a.open_findings.contains("U4");
-    let avoid_s6 = a.open_findings.contains("S6");
+    // S6 only concerns what stays physically held and counted (C10, C11); every
+    // other property is searched without stepping around its trigger
+    let avoid_s6 = a.open_findings.contains("S6") && matches!(a.prop.as_str(), "C10" | "C11");
 
     struct Acc {
         evaluations: u64,
